@@ -173,6 +173,10 @@ Qed.
 Lemma fam_file n i : fam_ok n WFtrue (LFile i) (fun _ o => o = Some [HT (TF i)]).
 Proof. apply fam_const; [reflexivity|]. const_steps. Qed.
 
+(* ---- Lancero's Mix objects: the block assembler's own (it serves the mix requests and applies the mix) *)
+Lemma fam_mix n : fam_ok n WFtrue LMix (fun _ o => o = Some [HT TA]).
+Proof. apply fam_const; [reflexivity|]. const_steps. Qed.
+
 (* ---- sourceState: only ever touched inside a critical section of sourceStateLock *)
 Lemma fam_state n :
   fam_ok n WFtrue LState (fun _ o => exists hs, o = Some hs /\ only (HM MState) hs = true).
